@@ -309,19 +309,30 @@ inductive Coef where
   | derived
 deriving DecidableEq, Repr, Inhabited
 
-/-- what `_unpack_stoichiometries` can read: it evaluates `v < 0` (a `Derived` is not ordered:
-    `TypeError`) and `[k] * -v` / `[k] * v` (a list cannot be repeated a `float` number of times:
-    `TypeError`) entry by entry; only Python `int`s pass -/
+/-- Python's `int(q)` for a float: truncation towards zero -/
+def pyTrunc (q : Rat) : Int := if 0 ≤ q then q.floor else -((-q).floor)
+
+/-- what `_unpack_stoichiometries` reads, entry by entry (after repo commit "fix: LabelMapper accepts
+    whole-number float coefficients ..."): `n = int(v)` — a `Derived` is no number: `TypeError` —, then
+    `n != v` — a float that is not a whole number: `ValueError` —, then `[k] * ±n` -/
 def intCoefs : List (Name × Coef) → Except LErr (List (Name × Int))
   | [] => .ok []
-  | (k, .int v) :: rest => do
-    let r ← intCoefs rest
-    pure ((k, v) :: r)
-  | (_, _) :: _ => .error .typeError
+  | (k, c) :: rest =>
+    match c with
+    | .derived => .error .typeError
+    | .int v => do
+      let r ← intCoefs rest
+      pure ((k, v) :: r)
+    | .float q =>
+      if ((pyTrunc q : Int) : Rat) = q then do
+        let r ← intCoefs rest
+        pure ((k, pyTrunc q) :: r)
+      else .error .valueError
 
 /-- one base reaction of `build_model`'s loop when the raw coefficients of some mapped reactions are
     given in `raw` (reactions not listed there have the integer coefficients of their `BRxn`): a
-    mapped reaction is unpacked first — `TypeError` for a non-`int` coefficient whatever the map —,
+    mapped reaction is unpacked first — `TypeError` for a `Derived`, `ValueError` for a fractional
+    coefficient, whatever the map —,
     an unmapped reaction is passed through -/
 def buildRxnP (lv : List (Name × Nat)) (maps : List (Name × List Int))
     (raw : List (Name × List (Name × Coef))) (r : BRxn) : Except LErr (List LRxn) :=
